@@ -343,9 +343,10 @@ Proof. reflexivity. Qed.
 (* ------------------------------------------------------------------ *)
 From SV Require Import C15.PmProofs.
 
-(* (since 2ac69bb: a fresh urllib password manager for every request) after a Basic challenge
-   the retried request carries the pair configured AT THE TIME of the request, whatever state
-   earlier sends left - no guard *)
+(* (since 7b69e23: one manager that registers URLs and answers with the transport's CURRENT
+   pair) after a Basic challenge the retried request carries the pair configured AT THE TIME of
+   the request, for any set of URLs registered before - the same URL, a shorter one (so this
+   request goes to a DEEPER path), others, none - no guard *)
 Theorem challenge_credentials : forall P u pw j prev pm q p cb,
   p_challenge p = Some cb ->
   has_key l_authorization (u2_headers (start_headers P prev q)) = false ->
@@ -366,7 +367,10 @@ Theorem no_credentials_no_answer : forall P k c j prev pm q p cb,
 Proof. exact no_credentials_no_answer_l. Qed.
 Print Assumptions no_credentials_no_answer.
 
-(* no send looks at what earlier sends left in the password manager *)
+(* no send depends on which URLs earlier sends registered.  (The one lookup that finds nothing
+   although credentials are set - a URL below no registered one, pm_lookup_unregistered in
+   PmProofs.v - needs the options to change between addcredentials and the challenge of ONE
+   send, i.e. another thread; through the sequential API every send registers its URL first.) *)
 Theorem history_independent : forall P k c j prev pm q p,
   model_step P k c j prev pm q p = model_step P k c j prev [] q p.
 Proof. exact history_independent_l. Qed.
@@ -393,8 +397,8 @@ Print Assumptions same_url_history.
 
 Example pm_nonvacuous :
   let q := mkReq None [47; 115; 47; 111]%N [] 1%N (Some [98]%N, Some [50]%N) false in
-  pm_find (q_path q) (pm_after TChallenge (q_creds q) [([47; 115]%N, ([97]%N, [49]%N))] q) = Some ([98]%N, [50]%N) /\
-  pm_find (q_path q) (pm_after_accumulating TChallenge (q_creds q) [([47; 115]%N, ([97]%N, [49]%N))] q)
-    = Some ([97]%N, [49]%N) /\
-  pm_after TChallenge (None, Some [50]%N) [([47; 115]%N, ([97]%N, [49]%N))] q = [].
+  let registered := [([47; 115]%N, ([97]%N, [49]%N))] in                  (* /svc, while (a, 1) was configured *)
+  pm_lookup (pm_after TChallenge (q_creds q) registered q) (q_path q) (q_creds q) = Some ([98]%N, [50]%N) /\
+  pm_find (q_path q) (pm_after_accumulating TChallenge (q_creds q) registered q) = Some ([97]%N, [49]%N) /\
+  pm_lookup registered (q_path q) (None, Some [50]%N) = None.
 Proof. repeat split; reflexivity. Qed.
